@@ -8,13 +8,15 @@ import PrqlModel.Drv.Target
 import PrqlModel.Drv.Rel
 import PrqlModel.Drv.Lex
 import PrqlModel.Drv.Take
+import PrqlModel.Drv.Json
 namespace Drv
 
 def handlers : List (List String → Option String) := [
   Drv.Target.handle,
   Drv.Rel.handle,
   Drv.Lex.handle,
-  Drv.Take.handle
+  Drv.Take.handle,
+  Drv.Json.handle
 ]
 
 def handle (fields : List String) : String :=
